@@ -102,7 +102,13 @@ fn up_str(m: &VUp) -> String {
         VUp::Updates(us) => format!(
             "updates {}",
             join(
-                us.iter().map(|u| match u {
+                {
+                    // EnableRequest updates come last, in hash order of the blocked set: sort them
+                    let mut us: Vec<&VUpdate> = us.iter().collect();
+                    let first_en = us.iter().position(|u| matches!(u, VUpdate::Enable(..))).unwrap_or(us.len());
+                    us[first_en..].sort_by_key(|u| match u { VUpdate::Enable(a, b) => (*a, *b), _ => (u32::MAX, u32::MAX) });
+                    us
+                }.into_iter().map(|u| match u {
                     VUpdate::Finished(t) => format!("fin:{}", tid(*t)),
                     VUpdate::Failed(t, m) => format!("fail:{}:{}", tid(*t), fail_class(m)),
                     VUpdate::Running(t, rv) => format!("run:{}:{}", tid(*t), rv),
@@ -404,10 +410,14 @@ impl H {
 
     async fn client(&mut self, m: FromClientMessage) -> Option<ToClientMessage> {
         self.req_tx.unbounded_send(Ok(m)).ok()?;
-        for _ in 0..200 {
+        for i in 0..4000 {
             tokio::task::yield_now().await;
             if let Ok(Some(r)) = self.resp_rx.try_next() {
                 return Some(r);
+            }
+            if i > 100 {
+                // ForgetJob drops the jobs on a blocking thread: give it real time
+                std::thread::sleep(Duration::from_micros(200));
             }
         }
         None
@@ -521,6 +531,9 @@ impl H {
                     write!(oline, " a=- p=-").unwrap();
                 }
                 write!(oline, " t={}", tids(&orders.tasks)).unwrap();
+            }
+            Op::DDown { w } => {
+                write!(oline, " bo={}", join(self.hq.sim.backlog_rq_order(Self::wid(*w)).iter(), ",")).unwrap();
             }
             Op::Sched => {
                 write!(oline, " w={} pf={}", join(orders.workers.iter(), ","), join(orders.prefill_sets.iter().map(|(rq, ts)| format!("{rq}:{}", tids(ts))), "/")).unwrap();
